@@ -134,6 +134,10 @@ def conformance_vocabulary(rnd):
         same(lst(arr(w).clip(max=2.0)), w.clip(max=2.0).tolist(), "clip max")
         same(lst(arr(w).clip(min=0.0)), w.clip(min=0.0).tolist(), "clip min")
         same(lst(colsym.m_clip(arr(w), -1.0, 2.5)), numpy.clip(w, -1.0, 2.5).tolist(), "clip both")
+        for coll in ((1, 2), [0, 7], {1, 2, 4}, numpy.array([3, 4])):
+            for inv in (False, True):
+                same([int(v) for v in lst(colsym.m_isin(arr(x), coll, invert=inv))], [int(v) for v in numpy.isin(x, coll, invert=inv)],
+                     f"isin {x.tolist()} {coll!r} invert={inv}")
         pos = numpy.array([rnd.randrange(n) for _ in range(n)])
         for op, uf in (("add", numpy.add), ("max", numpy.maximum), ("min", numpy.minimum)):
             real = numpy.zeros(n)
